@@ -531,7 +531,13 @@ func (fc *FnCtx) callStatic(st *State, callee *types.Func, call *ast.CallExpr) [
 		}
 	}
 	var args []Val
-	if len(call.Args) == 1 && sig.Params().Len() > 1 {
+	isTupleArg := false
+	if len(call.Args) == 1 {
+		if tv, ok := fc.info().Types[call.Args[0]]; ok {
+			_, isTupleArg = tv.Type.(*types.Tuple)
+		}
+	}
+	if len(call.Args) == 1 && sig.Params().Len() > 1 && isTupleArg {
 		args = fc.evalMulti(st, call.Args[0], sig.Params().Len())
 	} else {
 		for i, a := range call.Args {
